@@ -15,7 +15,7 @@ pub fn property() -> Property {
     Property {
         id: "C06",
         level: "exploration",
-        rule: "family `preamble` (function level): authenticate_client on a byte stream delivered through a fragmenting reader and ended by EOF. Preambles: the right hash; all 256 single-bit flips (fixed cases); single-byte substitutions; first-k-bytes-right for k = 0..31 (fixed); hashes of related passwords (prefix, suffix, case, trailing NUL/newline, empty); all-zero / all-one; every truncation length of a valid preamble (fixed); declared padding lengths {0, 1, 2, 255, 256, 257, 32767, 32768, 65534, 65535, random} (all 65536 in thorough); a sentinel frame behind the padding; read fragmentations incl. one byte at a time and cuts inside bytes 30..36. Oracles: Ok <=> bytes 0..32 equal SHA-256(password) and the stream holds >= 34 + L bytes; on Ok exactly 34 + L bytes were consumed (the rest of the stream is still there, byte for byte); the call always returns. Non-trivial = preamble within Hamming distance 8 of the valid one, or truncated inside hash/length/padding, or L >= 256, or a fragment boundary inside bytes 30..36. Distinct = distinct serialized case. One badauth case in five starts a server of its own configured with a password that has blanks or line breaks around it, consists of blanks only, or has mixed case, and presents the hash of exactly that password (must be accepted) or of a related one - trimmed, lower-cased, last character dropped, NUL appended (must be rejected like any other wrong hash). A right hash followed by only part of the announced padding is not judged (the bytes that follow complete the padding). The badauth family also cuts a right preamble in two at a generated position and lets 3 / 12 (thorough: 25) s pass between the pieces - a session must result - and sends 1-31 bytes that are not the beginning of the hash, 12 s of silence and then a right preamble - no session may result, nothing may be dialled.",
+        rule: "family `preamble` (function level): authenticate_client on a byte stream delivered through a fragmenting reader and ended by EOF. Preambles: the right hash; all 256 single-bit flips (fixed cases); single-byte substitutions; first-k-bytes-right for k = 0..31 (fixed); hashes of related passwords (prefix, suffix, case, trailing NUL/newline, empty); all-zero / all-one; every truncation length of a valid preamble (fixed); declared padding lengths {0, 1, 2, 255, 256, 257, 32767, 32768, 65534, 65535, random} (all 65536 in thorough); a sentinel frame behind the padding; read fragmentations incl. one byte at a time and cuts inside bytes 30..36. Oracles: Ok <=> bytes 0..32 equal SHA-256(password) and the stream holds >= 34 + L bytes; on Ok exactly 34 + L bytes were consumed (the rest of the stream is still there, byte for byte); the call always returns. Non-trivial = preamble within Hamming distance 8 of the valid one, or truncated inside hash/length/padding, or L >= 256, or a fragment boundary inside bytes 30..36. Distinct = distinct serialized case. One badauth case in five starts a server of its own configured with a password that has blanks or line breaks around it, consists of blanks only, or has mixed case, and presents the hash of exactly that password (must be accepted) or of a related one - trimmed, lower-cased, last character dropped, NUL appended (must be rejected like any other wrong hash). A right hash followed by only part of the announced padding is not judged (the bytes that follow complete the padding). The badauth family also cuts a right preamble in two at a generated position and lets 3 / 12 (thorough: 25) s pass between the pieces - a session must result - and sends 1-31 bytes that are not the beginning of the hash, 12 s of silence and then a right preamble - no session may result, nothing may be dialled. Three fixed cases and one generated case in fifty (thorough: one in sixteen) run against a server of their own that has first turned away 20 / 140 / 300 (thorough: 700) connections - wrong hash, half a hash, TLS without a byte, a bare TCP probe, eight at a time: who gets a session afterwards is judged as always.",
         assumptions: vec!["SHA-256 from the sha2 crate (a dependency, not code under test)", "harness pipe as the fragmenting reader"],
         families: vec![(Box::new(PreFam), 60_000, 3_000_000), (Box::new(crate::props::e2e::BadAuthFam), 150, 1_200)],
     }
